@@ -7,6 +7,7 @@ import (
 	"fmt"
 	"reflect"
 	"testing"
+	"unicode/utf8"
 
 	"github.com/elliotchance/gedcom/v39"
 	"pgregory.net/rapid"
@@ -172,20 +173,11 @@ func classes(f *gen.ForestBP) (cls []string, nontrivial bool) {
 		if d > 0 && n.Pointer != "" {
 			add("nested-pointer")
 		}
-		if !validUTF8(n.Value) {
+		if !utf8.ValidString(string(n.Value)) {
 			add("non-utf8-value")
 		}
 	})
 	return
-}
-
-func validUTF8(s string) bool {
-	for _, r := range s {
-		if r == 0xFFFD {
-			return false
-		}
-	}
-	return true
 }
 
 func TestCheckRandom(t *testing.T) {
@@ -193,7 +185,7 @@ func TestCheckRandom(t *testing.T) {
 		route := route
 		s := harness.NewSub("random-"+route,
 			"random G1 forests (<= 60 nodes, sometimes <= 300; forced chains up to depth 99; all registered + custom tags, records, role nodes inside/after families, nested pointers, hostile values), route="+route+"; non-trivial = depth >= 1 or a specialised kind or a pointer/level-like value; distinct by hash of the blueprint")
-		s.Rapid(t, harness.Share(harness.Pick(20000, 1000000)), 10+i, func(rt *rapid.T) {
+		s.Rapid(t, harness.Share(harness.Pick(100000, 2000000)), 10+i, func(rt *rapid.T) {
 			max := 60
 			if rapid.IntRange(0, 19).Draw(rt, "big") == 0 {
 				max = 300
@@ -271,7 +263,7 @@ func TestCheckExhaustive(t *testing.T) {
 				for i := 0; i < n; i++ {
 					l := c % nl
 					c /= nl
-					nodes[i] = &gen.NodeBP{Tag: exTags[l%4], Value: exValues[(l/4)%4], Pointer: exPointers[l/16]}
+					nodes[i] = &gen.NodeBP{Tag: exTags[l%4], Value: gen.Str(exValues[(l/4)%4]), Pointer: gen.Str(exPointers[l/16])}
 				}
 				f := &gen.ForestBP{TopDown: true}
 				for i := 0; i < n; i++ {
